@@ -33,6 +33,9 @@ type Taint struct {
 	NoKeyFlow bool
 	// Sanitizers: calls of these functions do not propagate taint to their result.
 	Sanitizers map[*ssa.Function]bool
+	// ResultFrom restricts which operands of a call carry taint into its result
+	// (nil result = default: all operands).
+	ResultFrom func(c *ssa.Call) []ssa.Value
 }
 
 // IndexFields records every FieldAddr/Field instruction of the given
@@ -229,6 +232,16 @@ func (t *Taint) visitCallCommon(v ssa.Value, cc *ssa.CallCommon, call *ssa.Call)
 	}
 	// unknown / external / interface call: result derives from its operands
 	if call != nil {
+		if t.ResultFrom != nil {
+			if ops := t.ResultFrom(call); ops != nil {
+				for _, o := range ops {
+					if o == v {
+						t.Add(call)
+					}
+				}
+				return
+			}
+		}
 		t.Add(call)
 	}
 }
